@@ -21,6 +21,7 @@ package cron
 import (
 	"encoding/json"
 	"errors"
+	"fmt"
 	"io/ioutil"
 	"net/http"
 	"strings"
@@ -57,7 +58,23 @@ func (c *InternalCron) ScheduleEvent(ctx *core.Context, se *ScheduledEvent) erro
 		core.Log(core.DEBUG|CRON, ctx, "InternalCron.ScheduleEvent", "findrules", *fr)
 		return nil
 	}
-	return c.Cron.Add(ctx, se.Id, sched, fn)
+	return c.Cron.Add(ctx, c.jobId(ctx, se.Id), sched, fn)
+}
+
+// jobId makes the id of the job for the given id in the context's
+// location.
+//
+// One InternalCron serves many locations, and ids (of rules) are
+// only unique within a location.
+func (c *InternalCron) jobId(ctx *core.Context, id string) string {
+	if ctx == nil {
+		return id
+	}
+	loc := ctx.Location()
+	if loc == nil {
+		return id
+	}
+	return fmt.Sprintf("%d:%s:%s", len(loc.Name), loc.Name, id)
 }
 
 func (c *InternalCron) Schedule(ctx *core.Context, sw *ScheduledWork) error {
@@ -98,11 +115,11 @@ func (c *InternalCron) Schedule(ctx *core.Context, sw *ScheduledWork) error {
 		return nil
 	}
 
-	return c.Cron.Add(ctx, sw.Id, sched, fn)
+	return c.Cron.Add(ctx, c.jobId(ctx, sw.Id), sched, fn)
 }
 
 func (c *InternalCron) Rem(ctx *core.Context, id string) (bool, error) {
-	return c.Cron.Rem(ctx, id)
+	return c.Cron.Rem(ctx, c.jobId(ctx, id))
 }
 
 func (c *InternalCron) Persistent() bool {
